@@ -243,7 +243,17 @@ func RunEnum[C any](t *testing.T, cfg Config, cases func(yield func(C) bool), ch
 	rec := newRecorder(cfg.Property, test, cfg.Rule)
 	rec.st.Exhaustive = true
 	defer rec.flush()
+	shard, shards := 0, 1
+	if v, err := strconv.Atoi(os.Getenv("VERIF_SHARDS")); err == nil && v > 1 {
+		shards = v
+		shard, _ = strconv.Atoi(os.Getenv("VERIF_SHARD"))
+	}
+	idx := -1
 	cases(func(c C) bool {
+		idx++
+		if idx%shards != shard {
+			return true // another process enumerates this case
+		}
 		canon, _ := json.Marshal(c)
 		if cfg.Inflight {
 			writeReplay(cfg.Property, test, canon, "", "inflight")
